@@ -48,7 +48,7 @@ func genHistory(kind pool.Kind, conc bool) *rapid.Generator[History] {
 		h.MaxConn = rapid.SampledFrom([]uint32{1, 1, 2, 2, 3, 0}).Draw(t, "max_connections")
 		h.MaxReq = rapid.SampledFrom([]uint32{0, 1, 2, 2, 3}).Draw(t, "max_requests")
 		if !conc {
-			h.Ops = rapid.SliceOfN(genOp(seqKinds), 1, 40).Draw(t, "ops")
+			h.Ops = rapid.SliceOfN(genOp(seqKinds), 6, 40).Draw(t, "ops")
 			return h
 		}
 		step := rapid.Custom(func(t *rapid.T) Op {
@@ -57,7 +57,7 @@ func genHistory(kind pool.Kind, conc bool) *rapid.Generator[History] {
 			}
 			return Op{K: "batch", Sub: rapid.SliceOfN(genOp(batchKinds), 2, 4).Draw(t, "sub")}
 		})
-		h.Ops = rapid.SliceOfN(step, 1, 24).Draw(t, "ops")
+		h.Ops = rapid.SliceOfN(step, 4, 24).Draw(t, "ops")
 		return h
 	})
 }
@@ -72,7 +72,8 @@ func runCase(t ev.TB, part string, h History) {
 		out2 := execute(part, h, confirmDeadline)
 		switch {
 		case out2.fail == nil:
-			extra = append(extra, "deadline-miss-not-reproduced")
+			extra = append(extra, "deadline-miss-not-reproduced", "deadline-miss-not-reproduced:"+first.sig)
+			fmt.Printf("C09 deadline miss not reproduced: %s step %d: %s\n", first.sig, first.step, first.msg)
 			out = out2
 		case out2.fail.sig == first.sig || !out2.fail.timing:
 			out = out2
@@ -130,6 +131,8 @@ var minimalHistories = []History{
 	// Close() with an idle connection
 	{Kind: pool.HTTP1, MaxConn: 1, MaxReq: 0, Ops: []Op{{K: "lease"}, {K: "reply"}, {K: "close"}, {K: "lease"}}},
 	{Kind: pool.PingPong, MaxConn: 1, MaxReq: 0, Ops: []Op{{K: "lease"}, {K: "reply"}, {K: "close"}, {K: "lease"}}},
+	// multiplex: GoAway, then the connection closes under an in-flight request
+	{Kind: pool.Mux, MaxConn: 1, MaxReq: 2, Ops: []Op{{K: "lease"}, {K: "goaway"}, {K: "upclose"}, {K: "lease"}}},
 	// the same shapes on pools where they are fine
 	{Kind: pool.HTTP1, MaxConn: 1, MaxReq: 0, Ops: []Op{{K: "lease"}, {K: "reset"}, {K: "lease"}, {K: "reply"}}},
 	{Kind: pool.PingPong, MaxConn: 2, MaxReq: 1, Ops: []Op{{K: "lease"}, {K: "lease"}, {K: "reply"}, {K: "lease"}}},
